@@ -45,4 +45,5 @@ def apply(fc):
     fc.replace_in('parse_base', '|data| signed_i32(data, 28)', signed_closure(28))
     fc.replace_in('parse_base', '|data| signed_i32(data, 27)', signed_closure(27))
     fc.contract('parse', within='for PositionReport', ensures=['%s(data@, strip1(r))' % names[t] for t in names])
-    fc.contract('parse', within='impl NavigationStatus', ensures=['r == navstatus_spec(data)'])
+    fc.contract('parse', within='impl NavigationStatus', ensures=['r == navstatus_spec(data)'], tags=['C12'])
+    fc.lemma('navstatus_injective', ['C12'])
